@@ -50,6 +50,54 @@ type c20UU struct {
 	ok bool
 }
 
+// embedded (anonymous) fields: a struct value, a named scalar, a pointer, an interface
+type C20ID int64
+type c20Base struct {
+	a int32
+	s string
+}
+type c20EmbS struct {
+	c20Base
+	n int8
+}
+type c20EmbI struct {
+	C20ID
+	n int8
+}
+type c20EmbP struct {
+	*c20Base
+	n int8
+}
+type c20EmbF struct {
+	c20Reader
+	n int8
+}
+type c20EmbAll struct {
+	n int8
+	C20ID
+	*c20Base
+	c20Reader
+	c20EmbS
+	u []uint16
+}
+
+const (
+	c20KID   = 32 // the named scalar C20ID (values are written as int64 scalars)
+	c20KBase = 33
+	c20KEmbS = 34
+	c20KEmbI = 35
+	c20KEmbP = 36
+	c20KEmbF = 37
+	c20KEmbA = 38
+)
+
+var c20Named = map[int]reflect.Type{
+	c20KID: reflect.TypeOf(C20ID(0)), c20KBase: reflect.TypeOf(c20Base{}), c20KEmbS: reflect.TypeOf(c20EmbS{}),
+	c20KEmbI: reflect.TypeOf(c20EmbI{}), c20KEmbP: reflect.TypeOf(c20EmbP{}), c20KEmbF: reflect.TypeOf(c20EmbF{}),
+	c20KEmbA: reflect.TypeOf(c20EmbAll{}),
+}
+var c20EmbKinds = []int{c20KBase, c20KEmbS, c20KEmbI, c20KEmbP, c20KEmbF, c20KEmbA}
+
 const (
 	c20KMy = 27 // type codes >= 27 occur in type descriptions only
 	c20KAB = 29
@@ -111,6 +159,9 @@ func c20Type(t V) reflect.Type {
 	case c20KUU:
 		return reflect.TypeOf(c20UU{})
 	}
+	if nt, ok := c20Named[k]; ok {
+		return nt
+	}
 	c20Fatal("unknown type code %d", k)
 	return nil
 }
@@ -134,7 +185,7 @@ func c20TypeOfVal(v V) reflect.Type {
 		return reflect.ArrayOf(len(v.L[2].L), c20Type(v.L[1]))
 	case 21:
 		return reflect.MapOf(c20Type(v.L[1]), c20Type(v.L[2]))
-	case 22, 26:
+	case 22, 26, 28:
 		return reflect.PtrTo(c20Type(v.L[1]))
 	case 20:
 		return c20Iface[v.L[1].Int()]
@@ -152,6 +203,9 @@ func c20TypeOfVal(v V) reflect.Type {
 // nodes built so far for the current top-level value, by sharing id
 var c20Shared = map[int]reflect.Value{}
 var c20SharedText = map[int]string{}
+
+// interior pointers built as nil placeholders and not yet set by c20Fix
+var c20Pending int
 
 // the heap cells built so far for the current size.Of/heap case: cell a is *c20Cells[a]
 var c20Cells []reflect.Value
@@ -179,6 +233,14 @@ func c20Build(v V, t reflect.Type) reflect.Value {
 	}
 	id := 0
 	switch v.L[0].Int() {
+	case 28:
+		// [28, T, [v], path]: an INTERIOR pointer (of type *T) to the part of the value found by
+		// walking path from the root; nil for now, set by c20Fix once the whole value stands
+		if t.Kind() != reflect.Ptr || t.Elem() != c20Type(v.L[1]) || len(v.L) != 4 || len(v.L[2].L) != 1 {
+			c20Fatal("ill-typed interior pointer")
+		}
+		c20Pending++
+		return reflect.New(t).Elem()
 	case 26:
 		// [26, T, a]: the pointer to heap cell a (size.Of/heap)
 		a := v.L[2].Int()
@@ -323,6 +385,115 @@ func c20Build1(v V, t reflect.Type) reflect.Value {
 	return r
 }
 
+
+// ---- interior pointers: [28, T, [v], path] points INTO the value: to the part reached from the root by
+// path (i >= 0: field / element i, -1: the pointee / dynamic value).  The text [v] is that part once
+// more (the tree reading of the value: size.Of follows the pointer and counts the part again).
+
+func c20Nav(root reflect.Value, path V) reflect.Value {
+	cur := root
+	for _, st := range path.L {
+		i := st.Int()
+		switch {
+		case i < 0:
+			cur = cur.Elem()
+		case cur.Kind() == reflect.Struct:
+			cur = cur.Field(i)
+		default:
+			cur = cur.Index(i)
+		}
+	}
+	return cur
+}
+
+func c20Settable(rv reflect.Value) reflect.Value {
+	if rv.CanSet() {
+		return rv
+	}
+	if !rv.CanAddr() {
+		c20Fatal("an interior pointer stands where it cannot be set (inside a map value / a dynamic value)")
+	}
+	return reflect.NewAt(rv.Type(), unsafe.Pointer(rv.UnsafeAddr())).Elem()
+}
+
+type c20FixCheck struct {
+	target reflect.Value
+	v      V
+}
+
+func c20InteriorPtr(v V, root reflect.Value, checks *[]c20FixCheck) reflect.Value {
+	target := c20Nav(root, v.L[3])
+	if !target.CanAddr() {
+		c20Fatal("the target of an interior pointer is not addressable")
+	}
+	if target.Type() != c20Type(v.L[1]) {
+		c20Fatal("interior pointer of type *%s to a %s", c20Type(v.L[1]), target.Type())
+	}
+	*checks = append(*checks, c20FixCheck{target, v})
+	c20Pending--
+	return reflect.NewAt(target.Type(), unsafe.Pointer(target.UnsafeAddr()))
+}
+
+func c20FixWalk(v V, rv, root reflect.Value, checks *[]c20FixCheck) {
+	switch v.L[0].Int() {
+	case 28:
+		c20Settable(rv).Set(c20InteriorPtr(v, root, checks))
+	case 23:
+		for i, e := range v.L[3].L {
+			c20FixWalk(e, rv.Index(i), root, checks)
+		}
+	case 17:
+		for i, e := range v.L[2].L {
+			c20FixWalk(e, rv.Index(i), root, checks)
+		}
+	case 21:
+		if rv.Len() > 0 {
+			keys := c20MapKeys[rv.Pointer()]
+			for i, kv := range v.L[4].L {
+				c20FixWalk(kv.L[1], rv.MapIndex(keys[i]), root, checks)
+			}
+		}
+	case 22:
+		if len(v.L[2].L) == 1 && rv.Type() != reflect.TypeOf((*c20IntRead)(nil)) {
+			c20FixWalk(v.L[2].L[0], rv.Elem(), root, checks)
+		}
+	case 20:
+		if len(v.L[2].L) == 1 {
+			if d := v.L[2].L[0]; d.L[0].Int() == 28 {
+				c20Settable(rv).Set(c20InteriorPtr(d, root, checks))
+			} else {
+				c20FixWalk(d, rv.Elem(), root, checks)
+			}
+		}
+	case 25:
+		for i, fv := range v.L[1].L {
+			c20FixWalk(fv, rv.Field(i), root, checks)
+		}
+	}
+}
+
+// c20Fix sets the interior pointers of a built value and checks that each of them points to what
+// its text says
+func c20Fix(v V, root reflect.Value) {
+	if c20Pending == 0 {
+		return
+	}
+	checks := []c20FixCheck{}
+	c20FixWalk(v, root, root, &checks)
+	if c20Pending != 0 {
+		c20Fatal("%d interior pointers were not set", c20Pending)
+	}
+	for _, c := range checks {
+		want := c20Ser(c20Build(c.v.L[2].L[0], c.target.Type()))
+		if c20Pending != 0 {
+			c20Fatal("an interior pointer to a part that holds an interior pointer")
+		}
+		if got := c20Ser(c.target); got != want {
+			c20Fatal("an interior pointer points to %s, its text says %s", got, want)
+		}
+	}
+}
+
 // c20Arg turns the top-level description into the interface{} argument.
 // Any failure to BUILD the value (ill-formed or ill-typed description, e.g. one
 // produced by the shrinker) is a harness error (exit 2), never an observation:
@@ -337,13 +508,16 @@ func c20Arg(v V) (data interface{}) {
 	c20SharedText = map[int]string{}
 	c20MapKeys = map[uintptr][]reflect.Value{}
 	c20Cells = nil
+	c20Pending = 0
 	if v.IsList() && len(v.L) == 1 && !v.L[0].IsList() && v.L[0].Z.Sign() == 0 {
 		return nil
 	}
 	if v.L[0].Int() == 20 {
 		c20Fatal("top-level value of interface kind")
 	}
-	return c20Build(v, c20TypeOfVal(v)).Interface()
+	r := c20Build(v, c20TypeOfVal(v))
+	c20Fix(v, r)
+	return r.Interface()
 }
 
 
@@ -377,6 +551,9 @@ func c20PtrInside(rv reflect.Value) bool {
 // building the value again (a map key whose %s text contains an address) or contains a newline.
 func c20Label(v V, rv reflect.Value, stable *bool) string {
 	k := v.L[0].Int()
+	if k == 28 {
+		k = 22 // an interior pointer is a pointer
+	}
 	if reflect.Kind(k) != rv.Kind() {
 		c20Fatal("label: kind %d but the value is a %s", k, rv.Kind())
 	}
@@ -509,7 +686,7 @@ func (d *c20DetInfo) walk(v V, depth, maxItem int) {
 			}
 		}
 		items(v.L[4].L, func(e V) V { return e.L[1] })
-	case 22:
+	case 22, 28:
 		for _, e := range v.L[2].L {
 			d.walk(e, depth, maxItem)
 		}
@@ -541,6 +718,11 @@ func c20TypeText(t reflect.Type) string {
 		return L(Int(c20KRI))
 	case reflect.TypeOf(c20UU{}):
 		return L(Int(c20KUU))
+	}
+	for code, nt := range c20Named {
+		if nt == t {
+			return L(Int(code))
+		}
 	}
 	k := int(t.Kind())
 	switch {
@@ -664,6 +846,7 @@ func c20HeapArg(cells, root V) (data interface{}) {
 	c20SharedText = map[int]string{}
 	c20MapKeys = map[uintptr][]reflect.Value{}
 	c20Cells = nil
+	c20Pending = 0
 	for _, c := range cells.L { // [T, value]
 		t := c20Type(c.L[0])
 		p := reflect.New(t)
@@ -673,7 +856,100 @@ func c20HeapArg(cells, root V) (data interface{}) {
 	if root.L[0].Int() == 20 {
 		c20Fatal("top-level value of interface kind")
 	}
-	return c20Build(root, c20TypeOfVal(root)).Interface()
+	r := c20Build(root, c20TypeOfVal(root))
+	if c20Pending != 0 {
+		c20Fatal("interior pointers are not supported in heap cases")
+	}
+	return r.Interface()
+}
+
+
+// c20First: the number in the first line of a report: [] for "<nil>", [n] for "<type>: n ..."
+func c20First(s string) string {
+	first := s
+	if i := strings.IndexByte(s, '\n'); i >= 0 {
+		first = s[:i]
+	}
+	if first == "<nil>" {
+		return L()
+	}
+	i := strings.LastIndex(first, ": ")
+	if i < 0 {
+		return L(Str(first))
+	}
+	n, err := strconv.ParseInt(first[i+2:], 10, 64)
+	if err != nil {
+		return L(Str(first))
+	}
+	return L(I(n))
+}
+
+// c20Session: size.Of / size.Stat keep nothing between calls, also not when a call panics.
+// args: T, v1, v2 (two values of type T), depth, maxItem, variant.  Three rounds of: p := &v1;
+// Of(p), Stat(p); Stat(holder of p and a member of an unsupported kind) -> panics (recovered);
+// *p = v2 (same address, other size); Of(p), Stat(p).
+func c20Session(a []V) string {
+	var t reflect.Type
+	var x1, x2 reflect.Value
+	func() {
+		defer func() {
+			if e := recover(); e != nil {
+				c20Fatal("cannot build the session values: %v", e)
+			}
+		}()
+		c20Shared, c20SharedText = map[int]reflect.Value{}, map[int]string{}
+		c20MapKeys, c20Cells = map[uintptr][]reflect.Value{}, nil
+		t = c20Type(a[0])
+		c20Pending = 0
+		x1 = c20Build(a[1], t)
+		x2 = c20Build(a[2], t)
+		if c20Pending != 0 {
+			c20Fatal("interior pointers are not supported in sessions")
+		}
+	}()
+	d, m, variant := a[3].Int(), a[4].Int(), a[5].Int()
+	rounds := []string{}
+	for round := 0; round < 3; round++ {
+		p := reflect.New(t)
+		p.Elem().Set(x1)
+		data := p.Interface()
+		o := []string{Int(size.Of(data)), c20First(size.Stat(data, d, m))}
+		var holder interface{}
+		ch := make(chan int)
+		switch variant {
+		case 0:
+			h := reflect.New(reflect.StructOf([]reflect.StructField{{Name: "P", Type: p.Type()}, {Name: "C", Type: reflect.TypeOf(ch)}})).Elem()
+			h.Field(0).Set(p)
+			h.Field(1).Set(reflect.ValueOf(ch))
+			holder = h.Interface()
+		case 1:
+			f := func() {}
+			h := reflect.New(reflect.StructOf([]reflect.StructField{{Name: "P", Type: p.Type()}, {Name: "F", Type: reflect.TypeOf(f)}})).Elem()
+			h.Field(0).Set(p)
+			h.Field(1).Set(reflect.ValueOf(f))
+			holder = h.Interface()
+		case 2:
+			holder = []interface{}{data, ch}
+		default:
+			h := reflect.New(reflect.StructOf([]reflect.StructField{{Name: "P", Type: p.Type()}, {Name: "N", Type: reflect.TypeOf(0)}})).Elem()
+			h.Field(0).Set(p)
+			holder = h.Interface()
+		}
+		panicked := func() (r string) {
+			defer func() {
+				if e := recover(); e != nil {
+					r = "1"
+				}
+			}()
+			_ = size.Stat(holder, 3, 10)
+			return "0"
+		}()
+		o = append(o, panicked)
+		p.Elem().Set(x2)
+		o = append(o, Int(size.Of(data)), c20First(size.Stat(data, d, m)))
+		rounds = append(rounds, L(o...))
+	}
+	return L(rounds...)
 }
 
 func init() {
@@ -769,6 +1045,7 @@ func init() {
 		data := c20CanonArg(a[0])
 		return Int(size.Of(typehelper.ToSlice(data)))
 	}
+	Exec["size.Stat/after-panic"] = c20Session
 	Exec["size.Of/heap"] = func(a []V) string {
 		return Int(size.Of(c20HeapArg(a[0], a[1])))
 	}
@@ -799,6 +1076,18 @@ func (t *c20T) fields() []*c20T {
 		return []*c20T{{K: 20, W: 1}}
 	case c20KUU:
 		return []*c20T{c20S(7), c20S(12), c20S(1)}
+	case c20KBase:
+		return []*c20T{c20S(5), c20S(24)}
+	case c20KEmbS:
+		return []*c20T{c20S(c20KBase), c20S(3)}
+	case c20KEmbI:
+		return []*c20T{c20S(c20KID), c20S(3)}
+	case c20KEmbP:
+		return []*c20T{{K: 22, Elem: c20S(c20KBase)}, c20S(3)}
+	case c20KEmbF:
+		return []*c20T{{K: 20, W: 1}, c20S(3)}
+	case c20KEmbA:
+		return []*c20T{c20S(3), c20S(c20KID), {K: 22, Elem: c20S(c20KBase)}, {K: 20, W: 1}, c20S(c20KEmbS), {K: 23, Elem: c20S(9)}}
 	case c20KMy:
 		my := &c20T{K: c20KMy}
 		return []*c20T{
@@ -829,7 +1118,7 @@ func (t *c20T) Text() string {
 	return L(Int(t.K))
 }
 
-func (t *c20T) isStruct() bool { return t.K == 25 || t.K >= 27 }
+func (t *c20T) isStruct() bool { return t.K == 25 || (t.K >= 27 && t.K != c20KID) }
 
 // number of distinct values c20Key can make of a comparable type
 func (t *c20T) keyCap() int {
@@ -843,7 +1132,7 @@ func (t *c20T) keyCap() int {
 			return 1 // all pointers to zero-size objects may be equal (runtime.zerobase)
 		}
 		return 1 << 20
-	case t.K <= 16 || t.K == 24 || t.K == 20:
+	case t.K <= 16 || t.K == 24 || t.K == 20 || t.K == c20KID:
 		return 1 << 20
 	case t.K == 17:
 		if t.N == 0 {
@@ -919,8 +1208,8 @@ func c20RandType(r *Rand, depth int, comparable bool) *c20T {
 			}
 			return t
 		case 19:
-			k := r.Pick(c20KMy, c20KAB, c20KRI, c20KUU)
-			if comparable && k == c20KMy {
+			k := r.Pick(c20KMy, c20KAB, c20KRI, c20KUU, c20KID, c20KBase, c20KEmbS, c20KEmbI, c20KEmbP, c20KEmbF, c20KEmbA)
+			if comparable && (k == c20KMy || k == c20KEmbA) {
 				continue
 			}
 			return c20S(k)
@@ -980,6 +1269,8 @@ func (c *c20Gen) val(t *c20T, depth int) string {
 	c.budget--
 	out := c.budget <= 0 || depth <= 0
 	switch {
+	case t.K == c20KID:
+		return L("6", Int(r.Pick(0, 1, 2, 100, 127)))
 	case t.K <= 16:
 		return L(Int(t.K), Int(r.Pick(0, 1, 2, 100, 127)))
 	case t.K == 24:
@@ -1072,6 +1363,8 @@ func (c *c20Gen) dyn(w, depth int, comparable bool, i int) string {
 func (c *c20Gen) key(t *c20T, i, depth int) string {
 	c.budget--
 	switch {
+	case t.K == c20KID:
+		return L("6", Int(i))
 	case t.K == 1:
 		return L("1", Int(i&1))
 	case t.K <= 16:
@@ -1121,7 +1414,7 @@ type c20Shape struct {
 	ids   map[int]int // sharing id -> number of occurrences
 }
 
-var c20KindName = map[int]string{17: "A", 20: "I", 21: "M", 22: "P", 23: "S", 24: "s", 25: "T"}
+var c20KindName = map[int]string{17: "A", 20: "I", 21: "M", 22: "P", 23: "S", 24: "s", 25: "T", 28: "Q"}
 
 func (s *c20Shape) walk(v V, d int) {
 	s.nodes++
@@ -1166,7 +1459,7 @@ func (s *c20Shape) walk(v V, d int) {
 			s.walk(e.L[0], d+1)
 			s.walk(e.L[1], d+1)
 		}
-	case 22, 20:
+	case 22, 20, 28:
 		if len(v.L[2].L) == 0 {
 			s.nils[c20KindName[k]] = true
 		}
@@ -1715,6 +2008,101 @@ func genC20(g *Gen) {
 		g.Exhaust = append(g.Exhaust, fmt.Sprintf("whole report: depth -2..6 x maxItem {-1..5,100} on %d fixed values (the struct of TestSizeStat behind a pointer and in a slice, slices of slices of length 0..5, arrays of arrays, a chain of pointers, nested interfaces, a map of slices)", len(shapesG)))
 	}
 
+
+	// (3h) sessions: Of / Stat of a pointer before and after a Stat call that PANICS on a holder of that
+	// pointer and a chan / func member, with the pointee replaced (same address, other size) in between
+	{
+		sess := func(t *c20T, v1, v2 string, variant int, bucket string) {
+			d, m := g.R.Pick(0, 1, 2, 3, -1), g.R.Pick(0, 1, 3, 10, 100)
+			g.Stat(bucket)
+			g.Do("size.Stat/after-panic", L(t.Text(), v1, v2, Int(d), Int(m), Int(variant)), fmt.Sprintf("session/v%d/T%d/d%d", variant, t.K, minInt(d, 3)))
+		}
+		i32 := &c20T{K: 23, Elem: c20S(5)}
+		for variant := 0; variant <= 3; variant++ {
+			sess(i32, L("23", "[5]", "0", rep(3, func(i int) string { return "[5,0]" })), L("23", "[5]", "0", rep(8, func(i int) string { return L("5", Int(i)) })), variant, "exh-session")
+			sess(c20S(24), L("24", Str("ab")), L("24", Str("abcdefghij")), variant, "exh-session")
+			for _, e := range elems {
+				if e.t.K != 20 {
+					sess(e.t, e.v(0), e.v(7), variant, "exh-session")
+					st := &c20T{K: 23, Elem: e.t}
+					sess(st, L("23", e.t.Text(), "0", rep(1, e.v)), L("23", e.t.Text(), "0", rep(5, e.v)), variant, "exh-session")
+				}
+			}
+		}
+		for k, n := 0, g.N(200, 4000); k < n; k++ {
+			var t *c20T
+			for {
+				t = c20RandType(g.R, g.R.Pick(1, 2, 2, 3), false)
+				if t.K != 20 {
+					break
+				}
+			}
+			gen.reset(0)
+			gen.budget = g.R.Pick(10, 40, 100)
+			v1 := gen.val(t, 4)
+			gen.budget = g.R.Pick(10, 40, 100)
+			v2 := gen.val(t, 4)
+			sess(t, v1, v2, g.R.Pick(0, 0, 1, 2, 2, 3), "rand-session")
+		}
+		g.Exhaust = append(g.Exhaust, "sessions: 4 holder variants (chan member, func member, []interface{} with a chan, no unsupported member) x pointees of every element type and slices of them growing from 1 to 5 elements")
+	}
+
+
+	// (3i) INTERIOR pointers: a pointer into the value itself — to the first (same address as the enclosing
+	// pointee) or a later field / element of a pointee the traversal is inside of; acyclic, and a pointer
+	// costs 8 + its pointee wherever the pointee lives
+	{
+		path := func(xs ...int) string { return Ints(xs) }
+		ip := func(T, v, p string) string { return L("28", T, L(v), p) }
+		for _, e := range elems {
+			if e.t.K == 20 {
+				continue
+			}
+			T := e.t.Text()
+			PT := L("22", T)
+			arr := func(n int) string { return L("17", T, rep(n, e.v)) }
+			// ring: &struct{slots [3]T; cur *T}, cur = &slots[j]
+			ringT := L("25", L(L("17", T, "3"), PT))
+			ring := func(j int, pre ...int) string {
+				return L("22", ringT, L(L("25", L(arr(3), ip(T, e.v(j), path(append(pre, -1, 0, j)...))))))
+			}
+			for j := 0; j < 3; j++ {
+				emit(ring(j), "exh-interior")
+			}
+			// a slice of rings, an interface holding a ring
+			emit(L("23", L("22", ringT), "0", L(ring(0, 0), ring(1, 1), ring(0, 2))), "exh-interior")
+			emit(L("25", L("[1,1]", L("20", "0", L(ring(0, 1, -1))))), "exh-interior")
+			// rec: &struct{id T; tag string; key *T; ktag *string}, key = &id (first member), ktag = &tag
+			recT := L("25", L(T, "[24]", PT, "[22,[24]]"))
+			tag := L("24", Str("tag"))
+			emit(L("22", recT, L(L("25", L(e.v(0), tag, ip(T, e.v(0), path(-1, 0)), L("22", "[24]", L()))))), "exh-interior")
+			emit(L("22", recT, L(L("25", L(e.v(0), tag, L("22", T, L()), ip("[24]", tag, path(-1, 1)))))), "exh-interior")
+			emit(L("22", recT, L(L("25", L(e.v(0), tag, ip(T, e.v(0), path(-1, 0)), ip("[24]", tag, path(-1, 1)))))), "exh-interior")
+			// first member of the first member: &struct{in struct{a T; b int8}; pa *T; pin *struct{...}}
+			inT := L("25", L(T, "[3]"))
+			in := L("25", L(e.v(2), "[3,1]"))
+			nestT := L("25", L(inT, PT, L("22", inT)))
+			emit(L("22", nestT, L(L("25", L(in, ip(T, e.v(2), path(-1, 0, 0)), ip(inT, in, path(-1, 0)))))), "exh-interior")
+			// pointer to pointer: the inner pointee holds a pointer to its own first member
+			emit(L("22", L("22", recT), L(L("22", recT, L(L("25", L(e.v(1), tag, ip(T, e.v(1), path(-1, -1, 0)), L("22", "[24]", L()))))))), "exh-interior")
+			// holder{arr *[3]T; head *T}: siblings to one address (never nested); head = &arr[0] / &arr[2]
+			holdT := L("25", L(L("22", L("17", T, "3")), PT))
+			for _, j := range []int{0, 2} {
+				emit(L("22", holdT, L(L("25", L(L("22", L("17", T, "3"), L(arr(3))), ip(T, e.v(j), path(-1, 0, -1, j)))))), "exh-interior")
+			}
+			// []interface{}{inner, inner.arr, &inner.arr[0]}
+			inner := L("22", holdT, L(L("25", L(L("22", L("17", T, "3"), L(arr(3))), L("22", T, L())))))
+			emit(L("23", "[20,0]", "0", L(
+				L("20", "0", L(inner)),
+				L("20", "0", L(ip(L("17", T, "3"), arr(3), path(0, -1, -1, 0, -1)))),
+				L("20", "0", L(ip(T, e.v(0), path(0, -1, -1, 0, -1, 0)))))), "exh-interior")
+			// pointer to the first element of a slice held by the same pointee
+			slT := L("25", L(L("23", T), PT))
+			emit(L("22", slT, L(L("25", L(L("23", T, "0", rep(2, e.v)), ip(T, e.v(0), path(-1, 0, 0)))))), "exh-interior")
+		}
+		g.Exhaust = append(g.Exhaust, fmt.Sprintf("interior pointers: to element 0/1/2 of an inline array of the enclosing pointee, to its first / second member, to the first member of its first member (two pointer types, one address), through a pointer to pointer, sibling pointers into one array, inside interfaces and slices, to the first element of a slice x %d element types", len(elems)-1))
+	}
+
 	// (3c) slices / arrays whose elements are ARRAYS of non-scalars: outer x array length x inner shape x leaf type
 	for _, e := range inner {
 		e := e
@@ -1736,9 +2124,21 @@ func genC20(g *Gen) {
 	}
 	g.Exhaust = append(g.Exhaust, fmt.Sprintf("arrays of non-scalars: []([n]X), [2][n]X, [][1][n]X for n in 1..3, X over the %d container shapes x %d leaf types", len(all), len(inner)))
 
+	// (3g) embedded (anonymous) fields: a struct value, a named scalar, a pointer, an interface, all of them
+	for _, k := range c20EmbKinds {
+		for i := 0; i < 8; i++ {
+			gen.budget = 200
+			gen.reset(0)
+			t := c20S(k)
+			wrap := []*c20T{{K: 22, Elem: t}, {K: 23, Elem: t}, {K: 17, Elem: t, N: 2}, {K: 25, Fields: []*c20T{c20S(1), t}}}[i%4]
+			emit(gen.val(wrap, 6), "exh-embedded")
+		}
+	}
+	g.Exhaust = append(g.Exhaust, "embedded fields: structs embedding a struct value / a named scalar / a pointer / an interface / all four, behind a pointer, in a slice, an array and a struct")
+
 	// (4) hand-declared types: unexported fields, a recursive type, a method-carrying interface
 	for k := 0; k < g.N(40, 400); k++ {
-		t := c20S(g.R.Pick(c20KMy, c20KMy, c20KAB, c20KRI, c20KUU))
+		t := c20S(g.R.Pick(c20KMy, c20KMy, c20KAB, c20KRI, c20KUU, c20KEmbS, c20KEmbI, c20KEmbP, c20KEmbF, c20KEmbA, c20KEmbA))
 		gen.budget = g.R.Pick(10, 40, 200)
 		gen.reset(g.R.Pick(0, 2, 3))
 		wrap := &c20T{K: g.R.Pick(22, 23), Elem: t}
